@@ -78,16 +78,19 @@ Access(c, d, k, kind) ==
 
 -----------------------------------------------------------------------------
 (* Frames *)
+(* A removed key may be kept as a tombstone or be gone altogether: clients cannot tell *)
+Gone(D, e, k) == IF k \notin DOMAIN D[e].keys THEN TRUE ELSE D[e].keys[k][3] = "Deleted"
+
 SameKeysExcept(D1, D2, d, ks) ==
   /\ DOMAIN D1 = DOMAIN D2
   /\ \A e \in DOMAIN D1 :
        /\ D1[e].strategy = D2[e].strategy
        /\ D1[e].id = D2[e].id
        /\ \A k \in (DOMAIN D1[e].keys \cup DOMAIN D2[e].keys) \ (IF e = d THEN ks ELSE {}) :
-            /\ k \in DOMAIN D1[e].keys /\ k \in DOMAIN D2[e].keys
-            /\ D1[e].keys[k][1] = D2[e].keys[k][1]
-            /\ D1[e].keys[k][2] = D2[e].keys[k][2]
-            /\ (D1[e].keys[k][3] = "Deleted") = (D2[e].keys[k][3] = "Deleted")
+            IF Gone(D1, e, k) \/ Gone(D2, e, k)
+            THEN Gone(D1, e, k) /\ Gone(D2, e, k)
+            ELSE /\ D1[e].keys[k][1] = D2[e].keys[k][1]
+                 /\ D1[e].keys[k][2] = D2[e].keys[k][2]
 
 (* Nothing a client can observe about the data changed ($connections is bookkeeping   *)
 (* of the session layer and is judged by group CONN only).                           *)
